@@ -220,6 +220,7 @@ PLANS["C09"] = {
                     "expressions outside the 12-expression palette, index sequences longer than 4, value types other than f64"],
     "bounds": {"all": ["check_partial_index: none, all usize pairs (Kani, complete)",
                        "exhaustive native enumeration (explicit runs of the contract body c09::bookkeeping_* on the real public API; bounded stand-in, not a proof): 12 expressions x {FlatEx, DeepEx} x {strict, relaxed} x every index sequence of length 0..=4 with entries 0..=nvars+1 — out-of-range index is an error at every position, variable list preserved after every step, iterated == sequential, n-th == n singles, order zero == identity, mixed partials agree (compared at two evaluation points)"]},
+    "native_exhaustive_release": {t: [("c09::bookkeeping_flat", 1, 400000000), ("c09::bookkeeping_deep", 1, 400000000)] for t in ("quick", "thorough")},
     "native_exhaustive": {"quick": [("c09::bookkeeping_flat", 1, 400000000), ("c09::bookkeeping_deep", 1, 400000000)],
                           "thorough": [("c09::bookkeeping_flat", 1, 400000000), ("c09::bookkeeping_deep", 1, 400000000)]},
     "explanation": "Proved: check_partial_index(i, n, _) is Err iff i >= n for all usize pairs (complete, loop-free). Bounded, NOT proved: the bookkeeping clauses on the public differentiation API, enumerated natively over a finite palette.",
@@ -322,6 +323,8 @@ KANI_TARGETS = {
 PLANS["C04"]["native_probes"] = {"quick": [("c04::var_lookup_probe", 200000)], "thorough": [("c04::var_lookup_probe", 2000000)]}
 PLANS["C04"]["bounds"]["quick"].append("sampled native probe (not a proof): find_parsed_vars / find_var_index on 200000 random token lists over 12 tricky names")
 C04_API = [("c04::var_lookup_spill", 1, 400000000), ("c04::arity_api", 1, 400000000), ("c04::derived_names", 1, 400000000), ("c04::derivative_names", 1, 400000000)]
+# public-API contract bodies once more on cargo's release profile (debug assertions off), as for C07
+PLANS["C04"]["native_exhaustive_release"] = {t: list(C04_API) for t in ("quick", "thorough")}
 PLANS["C04"]["native_exhaustive"] = {"quick": [("c04::var_lookup_3", 1, 400000000), ("c04::var_lookup_5", 1, 400000000), ("c04::var_lookup_6", 1, 400000000)] + C04_API,
                                      "thorough": [("c04::var_lookup_3", 1, 400000000), ("c04::var_lookup_5", 1, 400000000), ("c04::var_lookup_6", 1, 400000000), ("c04::var_lookup_7", 1, 400000000)] + C04_API}
 PLANS["C04"]["bounds"]["quick"].append("exhaustive native enumeration of contract bodies on the public API (bounded stand-in, not a proof): name collection with 15..=20 distinct names + 3 enumerated tokens (beyond the inline capacity 16); arity of eval / eval_relaxed / eval_vec / eval_iter on parsed expressions with n in {0,1,2,3,15,16,17,18} variables and 0..=n+2 values, flat and deep form; sorted-union name list, arity guards and by-name value binding of a op b for 10 x 10 operand expressions x {+,-,*,/} x {FlatEx::operate_binary, DeepEx::operate_binary, DeepEx's std operators}; name list and arity guards of second derivatives of 6 expressions")
